@@ -309,10 +309,10 @@ def NameOK (n : Str) : Prop :=
     (∀ a rest', rest = a :: rest' → isDigit a = false) ∧ keywords.contains n = false
 
 /-- the text of a literal leaf is one token when followed by a closing bracket, a space or a comma; the library's
-    float / decimal texts are not modelled character by character: for them this is the hypothesis -/
+    float text is not modelled character by character: for it this is the hypothesis (decimals are proved) -/
 def LitText (sf : F64 → Str) : Value → Prop
   | .float f => ∀ r, Fol false r → step ('f' :: sf f ++ r) = some (some (.float ('f' :: sf f)), r)
-  | .dec d => ∀ r, Fol false r → step ('d' :: showDec d ++ r) = some (some (.dec ('d' :: showDec d)), r)
+  | .dec _ => True      -- proved: Lemmas/DecText.lean, `dec_step`
   | .str _ => True
   | .int _ => True
   | .bool _ => True
